@@ -61,6 +61,8 @@ def protein_case(draw):
         for ch, cid in zip(desc["chains"], blank):
             ch["id"] = cid
             ch["ter"] = True
+        # the LAST chain of a file is often closed only by END (no TER of its own)
+        desc["chains"][-1]["ter"] = draw(st.booleans())
         desc["waters"] = []
     return dict(part="protein", desc=desc, ff=ff, opts=opts, hidden=hidden, blank=blank)
 
@@ -162,6 +164,24 @@ def table_cases():
                     k += 1
                     ch = c06._context(k % 3, name, pos)
                     out.append(dict(part="table", desc=dict(chains=[ch], waters=[]), ff=ff, opts=list(opts)))
+    return out
+
+
+def blank_cases():
+    """Files whose chains have no chain id (or only some of them have one): every layout of two chains x
+    last chain closed by TER or only by END x first chain with / without OXT x three force fields."""
+    from . import c06
+
+    out = []
+    k = 0
+    for blank in ([" ", " "], [" ", "A"], [" ", "B"], ["A", " "], ["B", " "]):
+        for ter_last in (True, False):
+            for oxt0 in (True, False):
+                for ff in ("AMBER", "PARSE", "CHARMM"):
+                    k += 1
+                    a = dict(c06._context(k % 3, "LYS", "C"), id=blank[0], oxt=oxt0, ter=True, start=1)
+                    b = dict(c06._context((k + 1) % 3, "ASP", "N"), id=blank[1], oxt=True, ter=ter_last, start=31, shift=[45.0, 3.0, -2.0])
+                    out.append(dict(part="blank-table", desc=dict(chains=[a, b], waters=[]), ff=ff, opts=[], hidden=False, blank=blank))
     return out
 
 
@@ -312,6 +332,7 @@ def parts(tier):
     return [
         Part("protein", check_protein, strategy=protein_case(), budget=dict(quick=480, thorough=10000)),
         Part("table", check_protein, cases=table_cases, exhaustive=True),
+        Part("blank-table", check_protein, cases=blank_cases, exhaustive=True),
         Part("na", check_na, strategy=na_case(), budget=dict(quick=160, thorough=3000)),
         Part("cyclic", check_cyclic, strategy=cyclic_case(), budget=dict(quick=64, thorough=1200)),
     ]
